@@ -146,6 +146,17 @@ type runner struct {
 
 func (r *runner) run(n int, s schedule) {
 	kind := s.Kind
+	readers := map[string]bool{}
+	for _, t := range s.Sched {
+		if strings.HasPrefix(t, "r") {
+			readers[t] = true
+		}
+	}
+	if len(readers) > 1 && kind == "players.disconnectall" {
+		// DisconnectAll unregisters players itself; a second listing call next to it
+		// would see removals the history does not show
+		kind = "players.list"
+	}
 	coll := kind[:strings.IndexByte(kind, '.')]
 	if s.Sched == nil {
 		s.Sched = []string{}
@@ -241,23 +252,14 @@ func (r *runner) run(n int, s schedule) {
 			r.tw.Emit(tracefmt.Rec{"ev": "w.ret", "t": w})
 		})
 	}
-	readers := map[string]bool{}
-	for _, t := range s.Sched {
-		if strings.HasPrefix(t, "r") {
-			readers[t] = true
-		}
-	}
 	rnames := make([]string, 0, len(readers))
 	for t := range readers {
 		rnames = append(rnames, t)
 	}
 	sort.Strings(rnames)
-	for i, t := range rnames {
+	for _, t := range rnames {
 		t := t
 		k := kind
-		if i > 0 && k == "players.disconnectall" {
-			k = "players.list" // at most one DisconnectAll per run
-		}
 		threads = append(threads, t)
 		ctl.Go(t, func() {
 			r.tw.Emit(tracefmt.Rec{"ev": "r.call", "t": t, "api": k})
@@ -359,7 +361,7 @@ func TestSchedules(t *testing.T) {
 	st := &stats{GateArrival: map[string]int{}, ByKind: map[string]int{}}
 	r := &runner{st: st,
 		step:   time.Duration(tracefmt.EnvInt("VERIF_STEP_MS", 6)) * time.Millisecond,
-		hungTO: time.Duration(tracefmt.EnvInt("VERIF_HUNG_MS", 3000)) * time.Millisecond,
+		hungTO: time.Duration(tracefmt.EnvInt("VERIF_HUNG_MS", 5000)) * time.Millisecond,
 	}
 	// The real code may crash the process (that is one of the things C12 is about):
 	// the trace is written in parts of `chunk` runs, the index of the run in progress
